@@ -23,6 +23,7 @@ type c03Scenario struct {
 	Suite      uint16 `json:"suite"`
 	Resumed    bool   `json:"resumed"`
 	ClientAuth bool   `json:"auth"`
+	PMTU       int    `json:"pmtu,omitempty"` // datagram stack: path MTU of both sides (handshake messages get fragmented)
 }
 
 type c03Edit struct {
@@ -57,6 +58,10 @@ func c03Prepare(sc c03Scenario) (*c03World, string) {
 	w.ccfg.NextProtos = []string{"h2", "http/1.1"}
 	w.scfg.NextProtos = []string{"h2"}
 	w.ccfg.SessionCache, w.scfg.SessionCache = w.cc, w.sc
+	if sc.PMTU > 0 {
+		c03SetPMTU(w.ccfg, sc.PMTU)
+		c03SetPMTU(w.scfg, sc.PMTU)
+	}
 	if sc.Resumed {
 		r := vfRunPair(w.ccfg, w.scfg, vfPairOpt{})
 		if r.CErr != nil || r.SErr != nil || r.Stalled {
@@ -248,6 +253,11 @@ func c03AddExt(rec []byte, prepend bool) (out []byte, ok bool) {
 
 func c03Scenarios() []c03Scenario {
 	var out []c03Scenario
+	if vfStack == "dtlcp" {
+		// fragmented handshakes
+		out = append(out, c03Scenario{Suite: ECC_SM4_GCM_SM3, PMTU: 400}, c03Scenario{Suite: ECDHE_SM4_CBC_SM3, ClientAuth: true, PMTU: 300},
+			c03Scenario{Suite: ECC_SM4_CBC_SM3, Resumed: true, PMTU: 120})
+	}
 	for _, resumed := range []bool{false, true} {
 		for _, s := range vfSuites {
 			out = append(out, c03Scenario{Suite: s, Resumed: resumed, ClientAuth: vfIsECDHE(s)})
@@ -297,7 +307,7 @@ func TestVF_C03(t *testing.T) {
 	for si, sc := range scs {
 		// quick tier: a third of the scenarios get the enumerated sweep (rotating with the seed); the
 		// others only the structure-aware edits and the flips of every record's header and first payload byte
-		light := !vfThorough() && (si+vfSeed())%3 != 0
+		light := !vfThorough() && (si+vfSeed())%3 != 0 && sc.PMTU == 0
 		// baseline: learn the record layout of this scenario
 		w, perr := c03Prepare(sc)
 		if perr != "" {
